@@ -548,3 +548,34 @@ pub fn replay(props: &[Box<dyn Property>], path: &str) -> i32 {
         0
     }
 }
+
+/// Shrink candidates for a list: removal of contiguous blocks (halves … 64ths) first, single
+/// elements only for short lists. Keeps the number (and the memory) of candidates bounded for
+/// the long histories some workloads draw.
+pub fn list_removals<T: Clone>(v: &[T]) -> Vec<Vec<T>> {
+    let n = v.len();
+    let mut out = vec![];
+    if n > 8 {
+        for parts in [2usize, 4, 8, 16, 32, 64] {
+            if parts > n {
+                break;
+            }
+            let step = n.div_ceil(parts);
+            let mut at = 0;
+            while at < n {
+                let mut w = v[..at].to_vec();
+                w.extend_from_slice(&v[(at + step).min(n)..]);
+                out.push(w);
+                at += step;
+            }
+        }
+    }
+    if n <= 80 {
+        for i in 0..n {
+            let mut w = v.to_vec();
+            w.remove(i);
+            out.push(w);
+        }
+    }
+    out
+}
